@@ -153,7 +153,10 @@ struct MultiClientSelector final
 
         auto lockAndData = CurrentClient();
         auto& clientSelect = *lockAndData;
-        if (!clientSelect.has_value()) log.Warning("Unexpected, claim already released.");
+        if (!clientSelect.has_value()) return log.Warning("Unexpected, claim already released.");
+
+        // Only the client that holds the claim can let go of it
+        if (clientSelect.value().get().identifier != identifier) return log.Warning("Client " + identifier + " does not hold the claim -> ignoring its release.");
 
         // Let go of the client
         clientSelect.reset();
